@@ -9,7 +9,8 @@
 (* maximised by                                                            *)
 (*   Normal       mu = sum w x / sum w,  var = sum w x^2 / sum w - mu^2,   *)
 (*                sigma = max(sqrt(var), sigmaMin)                         *)
-(*   Exponential  lambda = min(sum w / sum w x, lambdaMax)      (rate)     *)
+(*   Exponential  lambda = min(sum w / sum w x, lambdaMax)      (rate;     *)
+(*                lambdaMax if every weighted observation is 0)            *)
 (*   Poisson      lambda = sum w x / sum w                                 *)
 (*   Geometric    p = sum w / sum w (x + 1)     (x = failures before the   *)
 (*                first success, pmf (1-p)^x p)                            *)
@@ -56,11 +57,13 @@ LambdaMaxs == <<RInt(100), Rat(1, 2)>>
 NormalMLE(d) == [mu |-> Mean(d), var |-> Variance(d),
                  \* sigma^2 after the lower bound: max(var, sigmaMin^2)
                  var_bounded |-> [b \in 1..Len(SigmaMins) |-> RMax(Variance(d), RMul(SigmaMins[b], SigmaMins[b]))]]
+(* observations equal to 0 are admissible (density lambda at 0); if ALL weighted observations are 0 the      *)
+(* likelihood lambda^(sum w) has no maximiser and the estimate within the bound is the bound itself         *)
 ExponentialMLE(d) ==
-  IF RIsZero(SumWX(d)) \/ \E i \in 1..Len(d) : d[i][1] = 0
-  THEN [defined |-> FALSE, lambda |-> RZero, lambda_bounded |-> [b \in 1..Len(LambdaMaxs) |-> RZero]]
+  IF RIsZero(SumWX(d))
+  THEN [defined |-> TRUE, interior |-> FALSE, lambda |-> RZero, lambda_bounded |-> [b \in 1..Len(LambdaMaxs) |-> LambdaMaxs[b]]]
   ELSE LET l == RDiv(SumW(d), SumWX(d)) IN
-       [defined |-> TRUE, lambda |-> l,
+       [defined |-> TRUE, interior |-> TRUE, lambda |-> l,
         lambda_bounded |-> [b \in 1..Len(LambdaMaxs) |-> RMin(l, LambdaMaxs[b])]]
 PoissonMLE(d) == [defined |-> ~RIsZero(SumWX(d)), lambda |-> Mean(d)]
 GeometricMLE(d) == [p |-> RDiv(SumW(d), SumWX1(d))]
@@ -99,7 +102,7 @@ PoissonScoreZero == PoissonMLE(data).defined =>
 GeomScoreZero == LET p == GeometricMLE(data).p IN
                    RLt(p, ROne) => REq(RSub(RDiv(SumW(data), p), RDiv(SumWX(data), RSub(ROne, p))), RZero)
 \* Exponential: d/dlambda sum w (log lambda - lambda x) = sum w / lambda - sum w x = 0
-ExpScoreZero == ExponentialMLE(data).defined =>
+ExpScoreZero == ExponentialMLE(data).interior =>
                   REq(RSub(RDiv(SumW(data), ExponentialMLE(data).lambda), SumWX(data)), RZero)
 
 \* NegBinomial: d/dp sum w (x log p + r log(1-p)) = sum w x / p - r sum w / (1-p) = 0
